@@ -16,15 +16,17 @@ pub fn d_hook() -> Duration {
 /// Case plan shared by C01/C04/C05: directed scenarios x variants first, then random ones.
 pub struct Plan {
     pub directed_variants: u64,
+    /// number of select! seeds per point of the timing grids
+    pub grid_seeds: u64,
     pub random: u64,
 }
 
 impl Plan {
     pub fn for_tier(t: Tier, random_quick: u64, random_thorough: u64) -> Plan {
-        Plan { directed_variants: t.pick(4, 50), random: t.pick(random_quick, random_thorough) }
+        Plan { directed_variants: t.pick(4, 50), grid_seeds: t.pick(1, 8), random: t.pick(random_quick, random_thorough) }
     }
     pub fn cases(&self) -> u64 {
-        scenario::NUM_DIRECTED * self.directed_variants + self.random
+        scenario::NUM_DIRECTED * self.directed_variants + scenario::NUM_GRID * self.grid_seeds + self.random
     }
     pub fn scenario(&self, cfg: &Cfg, i: u64) -> Scenario {
         let d = d_hook();
@@ -32,6 +34,11 @@ impl Plan {
         if i < nd {
             let mut s = scenario::directed(i % scenario::NUM_DIRECTED, i / scenario::NUM_DIRECTED + cfg.seed * 1000, d);
             s.rt_seed = crate::util::rng::mix(&[cfg.seed, i]);
+            s
+        } else if i < nd + scenario::NUM_GRID * self.grid_seeds {
+            let k = i - nd;
+            let mut s = scenario::grid(k % scenario::NUM_GRID, d);
+            s.rt_seed = crate::util::rng::mix(&[cfg.seed, 0x671d, k]);
             s
         } else {
             scenario::random(crate::util::rng::mix(&[cfg.seed, 0xabc, i]), d)
